@@ -1097,7 +1097,7 @@ Proof.
   destruct (init >? 0) eqn:E.
   - destruct (grow a1 init (S nid)) as [[[a2 r] n2]|] eqn:G; [|discriminate]. injection H as <- <-.
     destruct (grow_spec_proof a1 init (S nid) a2 r n2 WF1 Hi G) as (R1 & R2 & R3 & R4 & _).
-    assert (P1 : a_pos a1 = 0) by (unfold a1; simpl; rewrite F4; reflexivity).
+    assert (P1 : a_pos a1 = 0) by (unfold a1, set_cap; cbn [a_pos]; rewrite F4; reflexivity).
     split; [exact R3|]. split; [lia|]. split.
     + destruct R3 as (OK2 & _). destruct (ok_geom _ OK2) as (_ & G2 & _).
       unfold grow in G. destruct (run_thread _ _ _) as [s|] eqn:Rn; [|discriminate]. destruct (c_ub s); [discriminate|].
@@ -1105,10 +1105,10 @@ Proof.
       destruct (run_thread_reach _ _ _ _ Rn) as (R & _).
       assert (IA0 : InvA (init_state a1 (S nid) [init])). { apply (Inv_init a1 (S nid) [init] WF1). constructor; [exact Hi|constructor]. }
       destruct (reach_stable _ s IA0 R) as (IAs & (E1 & _)). simpl in E1.
-      destruct (ok_geom _ (ia_ok s IAs)) as (_ & G2' & _). rewrite G2', E1. unfold a1; simpl. rewrite F1. reflexivity.
+      destruct (ok_geom _ (ia_ok s IAs)) as (_ & G2' & _). rewrite G2', E1. reflexivity.
     + intros i Hr. apply R4. lia.
-  - injection H as <- <-. apply Z.gtb_ltb in E. apply Z.ltb_ge in E.
-    split; [exact WF1|]. unfold a1; simpl. rewrite F4, F2. simpl. split; [lia|]. split; [reflexivity|]. intros i Hr; lia.
+  - injection H as <- <-. rewrite Z.gtb_ltb in E. apply Z.ltb_ge in E.
+    split; [exact WF1|]. unfold a1, set_cap; cbn [a_pos a_bsz]. rewrite F4, F2. unfold a0; cbn [a_pos a_bsz]. split; [lia|]. split; [reflexivity|]. intros i Hr; lia.
 Qed.
 
 (* ---- copy constructor *)
@@ -1195,7 +1195,7 @@ Theorem copy_refuted_proof :
 Proof.
   destruct (new_arena 2 0 0) as [[a1 n1]|] eqn:E1; [|vm_compute in E1; discriminate].
   destruct (grow a1 5 n1) as [[[a r] n]|] eqn:E2; [|vm_compute in E1; injection E1 as <- <-; vm_compute in E2; discriminate].
-  exists a1, n1, a, r, n. split; [reflexivity|]. split; [reflexivity|].
+  exists a1, n1, a, r, n. split; [reflexivity|]. split; [exact E2|].
   destruct (new_arena_spec_proof 2 0 0 a1 n1 ltac:(lia) E1) as (WF1 & _).
   destruct (grow_spec_proof a1 5 n1 a r n WF1 ltac:(lia) E2) as (_ & _ & WF & _).
   split; [exact WF|].
@@ -1296,4 +1296,22 @@ Proof.
   exists c. split; [unfold slot; simpl; rewrite nth_error_upd_eq by exact Ld; reflexivity|].
   split; [exact P1|]. split; [exact P2|].
   intros Hne. unfold slot in *; simpl. rewrite nth_error_upd_neq by exact Hne. exact Hs.
+Qed.
+
+Lemma run_sched_reach sched : forall s, reach step s (run_sched s sched).
+Proof.
+  induction sched as [|[t c] r IH]; intros s; simpl; [apply reach_refl|].
+  destruct (step s t [c]) as [[[s1 ch1] site1]|] eqn:E; [|apply IH].
+  eapply reach_trans; [|apply IH]. eapply reach_step; [apply reach_refl|exact E].
+Qed.
+
+Lemma copy_wf a nid c n' : arena_wf a -> copy_ctor a nid = Some (c, n') -> arena_wf c.
+Proof.
+  intros (OK & Hp & Hc) E.
+  assert (NU : copy_reads_uninit a = false).
+  { destruct (copy_reads_uninit a) eqn:U; [|reflexivity]. apply (copy_undefined_iff_proof a nid OK) in U. congruence. }
+  destruct (copy_equal_proof a nid OK NU) as (c' & n2 & E' & P1 & P2 & P3 & _ & _ & _ & _ & OKc).
+  rewrite E in E'. injection E' as <- <-.
+  split; [exact OKc|]. rewrite P1, P2, P3. unfold copy_ctor in E. destruct (copy_entries (a_tbl a) nid); [|discriminate].
+  injection E as <- _. simpl. auto.
 Qed.
